@@ -1,0 +1,47 @@
+//go:build verif
+
+package keyper
+
+import (
+	"context"
+
+	"github.com/jackc/pgx/v4"
+	"github.com/jackc/pgx/v4/pgxpool"
+
+	"github.com/shutter-network/rolling-shutter/rolling-shutter/keyper/kprconfig"
+	"github.com/shutter-network/rolling-shutter/rolling-shutter/p2p"
+)
+
+// Verification hooks (build tag verif).
+
+// VerifEonPubKeyHandler wraps the unexported eon public key handler.
+type VerifEonPubKeyHandler struct{ h *eonPubKeyHandler }
+
+func VerifNewEonPubKeyHandler(
+	config *kprconfig.Config,
+	dbpool *pgxpool.Pool,
+	messaging p2p.Messaging,
+	handler EonPublicKeyHandlerFunc,
+	broadcast bool,
+) *VerifEonPubKeyHandler {
+	return &VerifEonPubKeyHandler{&eonPubKeyHandler{
+		dbpool:             dbpool,
+		config:             config,
+		messaging:          messaging,
+		eonPubkeyHandler:   handler,
+		broadcastEonPubKey: broadcast,
+	}}
+}
+
+func (v *VerifEonPubKeyHandler) QueryAndHandle(ctx context.Context) error {
+	return v.h.queryAndHandleNewEonPubKeys(ctx)
+}
+
+// VerifNewCore builds a KeyperCore that is only good for calling VerifHandleOnChainChanges.
+func VerifNewCore(config *kprconfig.Config, dbpool *pgxpool.Pool) *KeyperCore {
+	return &KeyperCore{config: config, dbpool: dbpool, opts: newDefaultOptions()}
+}
+
+func (kpr *KeyperCore) VerifHandleOnChainChanges(ctx context.Context, tx pgx.Tx, syncBlockNumber uint64) error {
+	return kpr.handleOnChainChanges(ctx, tx, syncBlockNumber)
+}
